@@ -28,12 +28,14 @@ Proof. destruct r; cbn; auto. Qed.
 
 Lemma fin_triage k r : finr (triage k r).
 Proof.
-  unfold triage. repeat (apply fin_rbind; [apply fin_ev|intros ?]).
+  unfold triage. destruct (length r <? 8)%nat; [exact I|].
+  repeat (apply fin_rbind; [apply fin_ev|intros ?]).
   destruct (_ =? 1); [destruct (_ <? _)%nat; exact I|].
+  destruct (length r <? 12)%nat; [exact I|].
   apply fin_rbind; [apply fin_ev|intros ?].
   destruct (_ =? 4).
   - destruct (_ <? _)%nat; [exact I|]. apply fin_rbind; [apply fin_ev|intros ?; exact I].
-  - destruct (_ || _); exact I.
+  - destruct (_ || _); [exact I|]. destruct (_ <? _)%nat; exact I.
 Qed.
 
 Lemma fin_exchange req k : finM (exchange req k).
@@ -115,6 +117,7 @@ Proof.
   set (d' := {| d_mlen := d_mlen d; d_wlen := d_wlen d; d_pad := d_pad d; d_q := q; d_per := d_per d; d_reqs := d_reqs d; d_counter := d_counter d |}).
   set (rr := pad_to (d_mlen d) (d_pad d) r).
   assert (Q' : (length (d_q d') < f)%nat) by (subst d'; cbn [d_q length] in *; lia).
+  destruct (length rr <? 12)%nat; [exact I|].
   repeat (unfold bind at 1; unfold lift at 1;
           match goal with |- context [ev ?e ?x] => pose proof (fin_ev e x) as FE; destruct (ev e x); cbn [fst]; try exact I; try contradiction; clear FE end).
   destruct (negb _); [exact I|]. destruct (le16 rr 0 <? 8); [exact I|]. cbv zeta.
@@ -196,7 +199,7 @@ Proof. unfold pad_to. rewrite firstn_length_le; [reflexivity|]. rewrite app_leng
 (* one exchange with a device whose next reply is [rp] *)
 Definition after (d : dev) (req : list N) (per' : list (list (list N))) : dev :=
   {| d_mlen := d_mlen d; d_wlen := d_wlen d; d_pad := d_pad d; d_q := []; d_per := per';
-     d_reqs := d_reqs d ++ [pad_to (d_wlen d) 0 req]; d_counter := next_counter (d_counter d) |}.
+     d_reqs := d_reqs d ++ [pad_to (Nat.max (d_wlen d) (length req)) 0 req]; d_counter := next_counter (d_counter d) |}.
 
 Lemma exchange_reply d req k rp per' : (length (d_q d) <= 10)%nat -> d_per d = [rp] :: per' ->
   exchange req k d =
@@ -211,11 +214,15 @@ Proof.
 Qed.
 
 (* a reply with the headers of an SDO response to our request is let through *)
-Lemma triage_pass k r cmd : b r 4 / 64 = 0 -> b r 5 mod 16 = 3 -> b r 7 / 16 = 3 ->
+Lemma triage_pass k r cmd : (16 <= length r)%nat -> b r 4 / 64 = 0 -> b r 5 mod 16 = 3 -> b r 7 / 16 = 3 ->
   b r 8 / 32 = cmd -> cmd <= 3 -> validate k (le16 r 9) (b r 11) = true ->
   triage k r = Ok (skipn (plen k) r).
 Proof.
-  intros H4 H5 H7 H8 C V. unfold triage. rewrite H4, H5, H7, H8, ev_priority, ev_type3, (ev_service 3) by lia.
+  intros L H4 H5 H7 H8 C V. unfold triage.
+  replace (length r <? 8)%nat with false by (symmetry; apply Nat.ltb_ge; lia).
+  replace (length r <? 12)%nat with false by (symmetry; apply Nat.ltb_ge; lia).
+  replace (length r <? plen k)%nat with false by (symmetry; apply Nat.ltb_ge; destruct k; cbn [plen]; lia).
+  rewrite H4, H5, H7, H8, ev_priority, ev_type3, (ev_service 3) by lia.
   cbn [rbind]. replace (3 =? 1) with false by reflexivity. rewrite (ev_command cmd) by lia. cbn [rbind].
   replace (cmd =? 4) with false by (symmetry; apply N.eqb_neq; lia). rewrite V. reflexivity.
 Qed.
@@ -258,7 +265,7 @@ Proof.
   assert (B : forall i, (i < 16)%nat -> b (pad_to (d_mlen d) (d_pad d) rp) i = b rp i).
   { intros i Hi. apply b_pad; lia. }
   assert (T : triage (RUpload idx sub) (pad_to (d_mlen d) (d_pad d) rp) = Ok (skipn 12 (pad_to (d_mlen d) (d_pad d) rp))).
-  { change 12%nat with (plen (RUpload idx sub)). apply (triage_pass _ _ 2); rewrite ?B by lia; unfold le16; rewrite ?B by lia; subst rp; unfold rep_expedited, mbx_hdr, b; cbn [app nth].
+  { change 12%nat with (plen (RUpload idx sub)). apply (triage_pass _ _ 2); [rewrite pad_to_length; lia| | | | | |]; rewrite ?B by lia; unfold le16; rewrite ?B by lia; subst rp; unfold rep_expedited, mbx_hdr, b; cbn [app nth].
     - reflexivity.
     - lia.
     - reflexivity.
@@ -287,7 +294,7 @@ Proof.
   { intros i Hi. apply b_pad; lia. }
   assert (NB : N.of_nat n < 65536) by lia.
   assert (T : triage (RUpload idx sub) (pad_to (d_mlen d) (d_pad d) rp) = Ok (skipn 12 (pad_to (d_mlen d) (d_pad d) rp))).
-  { change 12%nat with (plen (RUpload idx sub)). apply (triage_pass _ _ 2); rewrite ?B by lia; unfold le16; rewrite ?B by lia; subst rp; unfold rep_normal, mbx_hdr, b; cbn [app nth].
+  { change 12%nat with (plen (RUpload idx sub)). apply (triage_pass _ _ 2); [rewrite pad_to_length; lia| | | | | |]; rewrite ?B by lia; unfold le16; rewrite ?B by lia; subst rp; unfold rep_normal, mbx_hdr, b; cbn [app nth].
     - reflexivity.
     - lia.
     - reflexivity.
@@ -333,6 +340,8 @@ Proof.
   assert (LR : length rp = 16%nat) by (subst rp; unfold rep_abort, mbx_hdr; rewrite !app_length, le_bytes_length; reflexivity).
   assert (B : forall i, (i < 16)%nat -> b (pad_to (d_mlen d) (d_pad d) rp) i = b rp i) by (intros i Hi; apply b_pad; lia).
   unfold triage. rewrite !B by lia. rewrite pad_to_length.
+  replace (d_mlen d <? 8)%nat with false by (symmetry; apply Nat.ltb_ge; lia).
+  try replace (d_mlen d <? 12)%nat with false by (symmetry; apply Nat.ltb_ge; lia).
   assert (E4 : b rp 4 / 64 = 0) by (subst rp; reflexivity).
   assert (E5 : b rp 5 mod 16 = 3) by (subst rp; unfold rep_abort, mbx_hdr, b; cbn [app nth]; lia).
   assert (E7 : b rp 7 / 16 = 2) by (subst rp; reflexivity).
@@ -358,6 +367,8 @@ Proof.
   assert (LR : length rp = 16%nat) by (subst rp; unfold rep_emergency, mbx_hdr; rewrite !app_length, le_bytes_length, pad_to_length; reflexivity).
   assert (B : forall i, (i < 16)%nat -> b (pad_to (d_mlen d) (d_pad d) rp) i = b rp i) by (intros i Hi; apply b_pad; lia).
   unfold triage. rewrite !B by lia. rewrite pad_to_length.
+  replace (d_mlen d <? 8)%nat with false by (symmetry; apply Nat.ltb_ge; lia).
+  try replace (d_mlen d <? 12)%nat with false by (symmetry; apply Nat.ltb_ge; lia).
   assert (E4 : b rp 4 / 64 = 0) by (subst rp; reflexivity).
   assert (E5 : b rp 5 mod 16 = 3) by (subst rp; unfold rep_emergency, mbx_hdr, b; cbn [app nth]; lia).
   assert (E7 : b rp 7 / 16 = 1) by (subst rp; reflexivity).
@@ -381,7 +392,9 @@ Proof.
   set (rp := rep_expedited c' idx' sub' data).
   assert (LR : length rp = 16%nat) by (subst rp; unfold rep_expedited, mbx_hdr; rewrite !app_length, pad_to_length; reflexivity).
   assert (B : forall i, (i < 16)%nat -> b (pad_to (d_mlen d) (d_pad d) rp) i = b rp i) by (intros i Hi; apply b_pad; lia).
-  unfold triage. rewrite !B by lia.
+  unfold triage. rewrite !B by lia. rewrite !pad_to_length.
+  replace (d_mlen d <? 8)%nat with false by (symmetry; apply Nat.ltb_ge; lia).
+  replace (d_mlen d <? 12)%nat with false by (symmetry; apply Nat.ltb_ge; lia).
   assert (E4 : b rp 4 / 64 = 0) by (subst rp; reflexivity).
   assert (E5 : b rp 5 mod 16 = 3) by (subst rp; unfold rep_expedited, mbx_hdr, b; cbn [app nth]; lia).
   assert (E7 : b rp 7 / 16 = 3) by (subst rp; reflexivity).
@@ -419,7 +432,7 @@ Proof.
   assert (B : forall i, (i < 9)%nat -> b (pad_to (d_mlen d) (d_pad d) rp) i = b rp i).
   { intros i Hi. apply b_pad; [exact LRM|rewrite LR; lia]. }
   assert (T : triage RSegment (pad_to (d_mlen d) (d_pad d) rp) = Ok (skipn (plen RSegment) (pad_to (d_mlen d) (d_pad d) rp))).
-  { apply (triage_pass _ _ 0); rewrite ?B by lia; subst rp; unfold rep_segment, mbx_hdr, b; cbn [app nth]; fold n.
+  { apply (triage_pass _ _ 0); [rewrite pad_to_length; lia| | | | | |]; rewrite ?B by lia; subst rp; unfold rep_segment, mbx_hdr, b; cbn [app nth]; fold n.
     - reflexivity.
     - lia.
     - reflexivity.
@@ -530,7 +543,7 @@ Proof.
   assert (B : forall i, (i < 16)%nat -> b (pad_to (d_mlen d) (d_pad d) rp) i = b rp i).
   { intros i Hi. apply b_pad; lia. }
   assert (T : triage (RUpload idx sub) (pad_to (d_mlen d) (d_pad d) rp) = Ok (skipn (plen (RUpload idx sub)) (pad_to (d_mlen d) (d_pad d) rp))).
-  { apply (triage_pass _ _ 2); rewrite ?B by lia; unfold le16; rewrite ?B by lia; subst rp; unfold rep_normal, mbx_hdr, b; cbn [app nth].
+  { apply (triage_pass _ _ 2); [rewrite pad_to_length; lia| | | | | |]; rewrite ?B by lia; unfold le16; rewrite ?B by lia; subst rp; unfold rep_normal, mbx_hdr, b; cbn [app nth].
     - reflexivity.
     - lia.
     - reflexivity.
